@@ -489,7 +489,7 @@ func (e *Engine) intrinsic(fr *Frame, st *State, callee *ssa.Function, args []Va
 		c := args[0].term()
 		if h != nil && h.mode == modeApply {
 			// pinning is only sound for postconditions stated on every path after the call
-			if h.holeBlock != nil && (postDominates(site.Block(), h.holeBlock) || pcBranchFree(st.pc, h.holePC)) {
+			if h.holeBlock != nil && (postDominates(site.Block(), h.holeBlock) || pcBranchFree(st.pc, h.holePC) || e.onlyFeasibleBranch(st, h)) {
 				h.pinCond = True
 			} else {
 				h.pinCond = nil // postcondition stated on some paths only: nothing is pinned
@@ -1286,6 +1286,43 @@ func (e *Engine) refineHavoc(st *State, h *harnessCtx, c *Term) {
 	}
 }
 
+// onlyFeasibleBranch: the branch conditions taken since the hole of an applied contract follow
+// from what was known at the hole (the contract's other cases are infeasible at this call
+// site), so its postconditions here hold on every feasible path and may pin results.
+// Decided by the solver with a short timeout; "unknown" means no pinning.
+func (e *Engine) onlyFeasibleBranch(st *State, h *harnessCtx) bool {
+	if h.holePC == nil {
+		return false
+	}
+	var since []*Term
+	for x := st.pc; x != nil && x != h.holePC; x = x.parent {
+		if x.depth < h.holePC.depth {
+			return false
+		}
+		if x.branch {
+			since = append(since, x.fact)
+		}
+	}
+	if len(since) == 0 || len(since) > 40 {
+		return false
+	}
+	goal := And(since...)
+	if len(e.quantVars) > 0 && e.mentionsQuant(goal) {
+		return false
+	}
+	key := fmt.Sprintf("%d/%d", h.holePC.term().id, goal.id)
+	if v, ok := e.branchCache[key]; ok {
+		return v
+	}
+	o := &Obligation{Name: "pin-branch", Kind: "internal", hyp: h.holePC.term(), goal: goal}
+	v := solveReqDo("", solveReq{Query: e.buildQuery(o, nil), TimeoutMs: 2000})
+	if e.branchCache == nil {
+		e.branchCache = map[string]bool{}
+	}
+	e.branchCache[key] = v.Status == "unsat"
+	return v.Status == "unsat"
+}
+
 // pinResults records result leaves that a postcondition determines: v == t, or
 // a sum containing v once equal to a constant / another sum.
 func (e *Engine) pinResults(h *harnessCtx, c *Term) bool {
@@ -1345,7 +1382,7 @@ func (e *Engine) pinResults(h *harnessCtx, c *Term) bool {
 				terms = append(terms, BVNeg(a))
 			}
 			t := bvSum(v.sort, terms...)
-			if mentions(t, v.name) || termSize(t, 12) > 12 {
+			if mentions(t, v.name) || termSize(t, 400) > 400 {
 				continue
 			}
 			if h.pinCond != nil && h.pinCond != True {
